@@ -61,7 +61,157 @@ def c13(tier, seed):
                                             "catalogue = output of masa_printid of the build under test"], floors)
 
 
+# --------------------------------------------------------------------------------------------- C01-C07, C09
+PDE_SRCS = COMMON + ["mon_pde.cpp", "oracle/oracle.cpp", "oracle/orc_heat.cpp", "oracle/orc_euler.cpp", "oracle/orc_ns.cpp", "oracle/orc_axi.cpp",
+                     "oracle/orc_powerlaw.cpp", "oracle/orc_misc.cpp", "oracle/orc_sa.cpp", "oracle/orc_chem.cpp"]
+HEAT = ["heateq_%dd_%s_%s" % (d, a, b) for d in (1, 2, 3) for a in ("steady", "unsteady") for b in ("const", "var")]
+EULER = ["euler_1d", "euler_2d", "euler_3d", "euler_transient_1d", "euler_transient_2d", "euler_transient_3d", "axisymmetric_euler", "axi_euler_transient"]
+NS = ["navierstokes_2d_compressible", "navierstokes_3d_compressible", "axisymmetric_navierstokes_compressible", "axi_cns_transient", "navierstokes_4d_compressible_powerlaw"]
+MISC = ["laplace_2d", "burgers_equation"]
+SA = ["rans_sa", "fans_sa_transient_free_shear", "fans_sa_steady_wall_bounded"]
+CHEM = ["euler_chem_1d"]
+GRAD = ["euler_1d", "euler_2d", "euler_3d", "navierstokes_2d_compressible", "navierstokes_3d_compressible", "navierstokes_4d_compressible_powerlaw"]
+# relative cost per (case x point), used to cut shards of similar length
+COST = {"navierstokes_4d_compressible_powerlaw": 40, "fans_sa_transient_free_shear": 8, "fans_sa_steady_wall_bounded": 6, "navierstokes_3d_compressible": 4,
+        "axi_cns_transient": 3, "axisymmetric_navierstokes_compressible": 3, "euler_transient_3d": 3, "euler_3d": 2, "navierstokes_2d_compressible": 2}
+# C09 constants: see DESIGN sec. 5 (calibration); library flavour "plain" (-O0) and "opt" (-O2)
+K_D, K_L = 4, 4
+
+
+def pde_exe(flavour="plain"):
+    return build.build_bin(flavour, "mon_pde", PDE_SRCS, opt="-O2")
+
+
+def pde_shards(exe, sols, seed, cases, points, classes, precs=("d", "l"), dl=False, tag=""):
+    shards = []
+    for sol in sols:
+        per = max(4, int(2400 / COST.get(sol, 1) / max(points, 1)))   # cases per shard
+        for p in precs:
+            c0 = 0
+            while c0 < cases:
+                n = min(per, cases - c0)
+                args = ["--sols", sol, "--prec", p, "--seed", seed, "--case0", c0, "--cases", n, "--points", points, "--classes", classes,
+                        "--kd", K_D, "--kl", K_L]
+                if dl and p == "d":
+                    args.append("--dl")
+                shards.append(Shard(exe, [str(a) for a in args], "%s%s/%s/%d" % (tag, sol, p, c0), timeout=3600))
+                c0 += n
+    return shards
+
+
+def pde_cov(agg, sols, what):
+    worst = {}
+    for st in agg.stats.get("ratio", []):
+        k = st["k"]
+        if k not in worst or st["max"] > worst[k]["max"]:
+            worst[k] = {"max": round(st["max"], 4), "n": worst.get(k, {}).get("n", 0) + st["n"]}
+        else:
+            worst[k]["n"] += st["n"]
+    top = sorted(worst.items(), key=lambda kv: -kv[1]["max"])
+    return {
+        "evaluations": agg.count("comparisons") + agg.count("bad_index_calls") + agg.count("gradient_vs_fd_of_exact_checks")
+        + agg.count("callback_argument_checks") + agg.count("mass_sum_invariant_checks") + agg.count("double_vs_longdouble_comparisons"),
+        "distinct_nontrivial": agg.count("parameter_vectors_all_distinct_nonzero"),
+        "rule": "per solution and precision, parameter vectors drawn independently per parameter from the admissible set (amplitudes +-U(0.1,2), wave "
+                "numbers +-U(0.2,3), lengths +-U(0.5,3), offsets dominating the amplitudes where positivity is required; long double draws use full "
+                "64-bit mantissas), each evaluated at random points of the box; a vector counts as non-trivial when every parameter is non-zero and no "
+                "two parameters have the same magnitude (counted by the driver; vectors are independent draws, so distinct). " + what,
+        "solutions": sorted(agg.distinct.get("solutions", [])),
+        "parameter_vectors": agg.count("parameter_vectors"),
+        "points_evaluated": agg.count("points"),
+        "skipped_near_branch_or_inadmissible": agg.count("skipped_near_branch"),
+        "max_error_ratio_in_units_of_u_e_per_evaluator(top 25)": {k: v for k, v in top[:25]},
+        "evaluator_instances_monitored": len(worst),
+        "semantic_tolerance": "2^20 * u_S * e (e = running-error magnitude of the reference operator)",
+    }
+
+
+PDE_ASSUME = ["g++ __float128 arithmetic and libquadmath elementary functions are exact to well beyond long double",
+              "the governing operators in harness/oracle/ops_flow.hpp, orc_*.cpp are the ones the property statement names; the fields are the documented forms "
+              "and are compared value-by-value with masa_eval_exact_* wherever the API exposes them",
+              "points closer than 1e-6 (relative) to a branch of a piecewise closure are skipped and counted"]
+
+
+def pde_check(pid, sols, classes, tier, seed, quick=(120, 8), thorough=(4000, 16), what="", floors_extra=()):
+    agg = Agg(pid, tier, seed)
+    cases, points = quick if tier == "quick" else thorough
+    exe = pde_exe()
+    agg.add_shards(run_shards(pde_shards(exe, sols, seed, cases, points, classes)))
+    floors = [("every solution in scope contributed samples", agg.ndistinct("solutions") == len(sols)),
+              ("at least 100 comparisons per solution", agg.count("comparisons") >= 100 * len(sols)),
+              ("at least half of the parameter vectors non-trivial", agg.count("parameter_vectors_all_distinct_nonzero") * 2 >= agg.count("parameter_vectors"))]
+    for d, f in floors_extra:
+        floors.append((d, f(agg)))
+    return finish(agg, "exploration", pde_cov(agg, sols, what), PDE_ASSUME, floors)
+
+
+@prop("C01")
+def c01(tier, seed):
+    return pde_check("C01", HEAT, "source,exact", tier, seed, quick=(300, 16), thorough=(10000, 16))
+
+
+@prop("C02")
+def c02(tier, seed):
+    return pde_check("C02", EULER, "source,exact", tier, seed, quick=(200, 12), thorough=(6000, 16))
+
+
+@prop("C03")
+def c03(tier, seed):
+    return pde_check("C03", NS, "source,exact", tier, seed, quick=(100, 8), thorough=(3000, 16),
+                     what="Power-law solution: all 205 parameters drawn non-zero.")
+
+
+@prop("C04")
+def c04(tier, seed):
+    return pde_check("C04", MISC, "source,exact", tier, seed, quick=(400, 16), thorough=(10000, 16))
+
+
+@prop("C05")
+def c05(tier, seed):
+    return pde_check("C05", SA, "source,exact", tier, seed, quick=(150, 12), thorough=(5000, 16),
+                     what="Free-shear solution: every temporal amplitude/frequency and v_0, v_x non-zero; two-argument forms compared with the operator at t = 0.")
+
+
+@prop("C06")
+def c06(tier, seed):
+    return pde_check("C06", CHEM, "source,exact", tier, seed, quick=(600, 16), thorough=(20000, 16),
+                     what="Programs: 6 callbacks K_eq(T) (2 constants, 2 Arrhenius-like, 2 positive polynomials), each a call-recording variant.",
+                     floors_extra=[("callback argument checked at least 1000 times", lambda a: a.count("callback_argument_checks") >= 1000),
+                                   ("mass-sum invariant checked at least 500 times", lambda a: a.count("mass_sum_invariant_checks") >= 500)])
+
+
+@prop("C07")
+def c07(tier, seed):
+    return pde_check("C07", GRAD, "grad", tier, seed, quick=(150, 8), thorough=(4000, 16),
+                     what="Gradient component i compared with (a) the jet derivative of the documented field and (b) an 8th-order central difference of "
+                          "masa_eval_exact_* itself; indices {0,-1,-2,-3,INT_MIN,INT_MAX,dim+1..dim+3} must give the error value at every point.",
+                     floors_extra=[("out-of-range index exercised at least 1000 times", lambda a: a.count("bad_index_calls") >= 1000),
+                                   ("FD cross-check ran at least 1000 times", lambda a: a.count("gradient_vs_fd_of_exact_checks") >= 1000)])
+
+
+@prop("C09")
+def c09(tier, seed):
+    agg = Agg("C09", tier, seed)
+    sols = HEAT + EULER + NS + MISC + SA + CHEM
+    cases, points = (60, 8) if tier == "quick" else (1500, 16)
+    shards = pde_shards(pde_exe("plain"), sols, seed, cases, points, "source,exact,grad", dl=True, tag="O0:")
+    if tier == "thorough":
+        shards += pde_shards(pde_exe("opt"), sols, seed + 1, cases // 2, points, "source,exact,grad", dl=True, tag="O2:")
+    agg.add_shards(run_shards(shards))
+    cov = pde_cov(agg, sols, "Precision regime: |lib - ref| <= K u_S e with K_double = %g, K_longdouble = %g; double and long double compared at identical "
+                             "double-representable inputs; every value checked finite." % (K_D, K_L))
+    dl = {}
+    for st in agg.stats.get("dl", []):
+        dl[st["k"]] = max(dl.get(st["k"], 0), st["max"])
+    cov["max_double_vs_longdouble_ratio(top 10)"] = dict(sorted(dl.items(), key=lambda kv: -kv[1])[:10])
+    cov["library_flavours"] = ["-O0 -fno-unsafe-math-optimizations"] + (["-O2 -fno-unsafe-math-optimizations"] if tier == "thorough" else [])
+    floors = [("every solution of C01-C06 contributed samples", agg.ndistinct("solutions") == len(sols)),
+              ("double vs long double compared at least 5000 times", agg.count("double_vs_longdouble_comparisons") >= 5000)]
+    return finish(agg, "exploration", cov, PDE_ASSUME + ["C08 solutions (sod_1d, cp_normal) are covered for precision by the C08 monitor's own quad references"], floors)
+
+
 def prebuild():
     """build every harness binary the quick checks use (called by setup)"""
     build.build_bin("exc", "mon_names", COMMON + ["mon_names.cpp"])
     build.build_bin("plain", "mon_names", COMMON + ["mon_names.cpp"])
+    pde_exe("plain")
